@@ -54,7 +54,7 @@ def _vecdiff(case):
 def c05(prop, tier, verdict):
     def sig(line):
         c = line.get('case', {})
-        what = 'escaped' if line.get('escaped') else ('err' if line.get('err') else 'diff:' + '+'.join(sorted(set(x.split(':', 1)[-1].split('(')[0].split('=')[0].split('#')[0] for x in line.get('diffs', [])))))
+        what = 'escaped' if line.get('escaped') else ('err' if line.get('err') else 'diff:' + '+'.join(sorted(set(('reused-' if x.startswith('reused:') else '') + x.split(':')[-1 if not x.startswith('size') else 0].split('(')[0].split('=')[0].split('#')[0] for x in line.get('diffs', [])))))
         return 'wire:%s:%s/%s' % (c.get('proto'), what, _vecdiff(c))
     cov, _ = eng_data.run(prop, tier, verdict, 'Wire', {'K': '3' if tier == 'thorough' else '2'}, sig, 5000,
                           sample=None if tier == 'thorough' else None, nontrivial=lambda c: _vecdiff(c) != '', seeds=3 if tier == 'thorough' else 1)
